@@ -95,6 +95,11 @@ int main(void)
     {
         return 2;
     }
+    if (controlHandshakes(v_tls_1_2, CS_RSA_AES128_GCM) < 0)
+    {
+        printf("CONTROL FAILED\n");
+        return 3;
+    }
     sk = loadServerKeys(0);
     ck = loadClientKeys(1);     /* the client has an identity for client auth */
     rk = loadClientKeys(0);
@@ -144,7 +149,7 @@ int main(void)
         cli->hsState, !!(cli->flags & SSL_FLAGS_ERROR));
     if (rc < 0 || (cli->flags & SSL_FLAGS_ERROR))
     {
-        printf("client rejected the ClientHello: no violation\n");
+        printf("OK: client rejected the ClientHello (rc %d, alert %d)\n", rc, cli->err);
         return 0;
     }
     m = takeOut(cli, &l, NULL);
@@ -191,7 +196,7 @@ int main(void)
         cli->hsState, !!(cli->flags & SSL_FLAGS_ERROR));
     if (rc < 0 || (cli->flags & SSL_FLAGS_ERROR))
     {
-        printf("no violation\n");
+        printf("OK: client rejected the message (rc %d, alert %d)\n", rc, cli->err);
         return 0;
     }
     pt[0] = 1;
@@ -201,7 +206,7 @@ int main(void)
         cli->hsState, !!(cli->flags & SSL_FLAGS_ERROR));
     if (rc < 0 || (cli->flags & SSL_FLAGS_ERROR))
     {
-        printf("no violation\n");
+        printf("OK: client rejected the message (rc %d, alert %d)\n", rc, cli->err);
         return 0;
     }
     /* Finished as a client-role receiver expects it: "server finished" label,
@@ -239,6 +244,6 @@ int main(void)
             "are compiled out)\n", !!(cli->flags & SSL_FLAGS_SERVER));
         return 1;
     }
-    printf("no violation (client did not complete the reversed handshake)\n");
+    printf("OK: client did not complete the reversed handshake\n");
     return 0;
 }
